@@ -920,3 +920,38 @@ Section NstateCheck.
     destruct (text_eqb_spec (e_digest e) (digest_text Hb (e_fmt e) c)); [assumption|discriminate].
   Qed.
 End NstateCheck.
+
+(* ---- detection on nested trees: a recorded file whose bytes changed ---- *)
+Section NestedDetect.
+  Variable Hb : fmt -> bytes -> bytes.
+  Variable matches : list text -> text -> bool.
+  Variable C : Type.
+  Variable cdig : C -> text.
+  Notation node := (node C).
+
+  Lemma reference_nested h0 kids hs p : load C cdig (Dir h0 kids) = inl hs -> nprev hs ->
+    reference hs p = find_original (lh_gens (route_to hs p)) (strip_prefix (lh_root (route_to hs p)) p).
+  Proof.
+    intros Hl Hprev. destruct (load_list_facts C cdig h0 kids hs Hl) as [_ [_ [Hrin _]]].
+    unfold reference. fold (rooth hs). fold (route_to hs p). rewrite prev_steps_id; [reflexivity|].
+    intros g r Hg Hr. apply (Hprev (root_hist hs) g r Hrin Hg Hr).
+  Qed.
+
+  (* the tree the histories describe (t), and a later tree t2 with the same histories in which file p has other bytes:
+     verify names p and exits 11 -- unless the two contents collide in the reference's format *)
+  Theorem nested_altered_detected h0 kids hs t2 ipats ifile p c c' e r :
+    wf_tree C (Dir h0 kids) -> load C cdig (Dir h0 kids) = inl hs -> nprev hs -> ncur Hb C hs (Dir h0 kids) ->
+    get C (Dir h0 kids) p = Some (File c) -> reference hs p = Some e ->
+    load C cdig t2 = inl hs ->
+    In (p, c') (ev_files (events matches C (set_patterns (latest_patterns (lh_gens (root_hist hs))) ipats (pattern_file_lines ifile)) [] t2)) ->
+    digest_text Hb (e_fmt e) c' <> digest_text Hb (e_fmt e) c ->
+    verify_result Hb matches C cdig false t2 ipats ifile = Some r ->
+    vr_code r = 11%Z /\ In p (vr_mismatch r).
+  Proof.
+    intros Hwf Hl Hprev Hcur Hgt Href Hl2 Hin Hd Hv.
+    apply (altered_file_detected Hb matches C cdig t2 hs ipats ifile p c' e r Hl2 Hin Href); [|exact Hv].
+    destruct (routed_consistent Hb C cdig h0 kids hs p c Hwf Hl Hprev Hcur Hgt) as [_ Hcons].
+    rewrite (reference_nested h0 kids hs p Hl Hprev) in Href. rewrite (Hcons e (proj1 (find_original_recorded _ _ _ Href))).
+    intros E. apply Hd. symmetry. exact E.
+  Qed.
+End NestedDetect.
